@@ -276,6 +276,10 @@ def check_c07(trace, res: Result, hs: Hasher):
             stream.append((r[1], idx, redirect, cls == "ecall"))
             obs.append(r[0])
         prev_mem = (r[17], r[18])
+    if not stream and prog and not five["exc"]:
+        # an instruction exists at address 0: it is fetched in the first cycle and retires in the fifth
+        res.violate("C07", "nothing-retired", expected="first instruction retires in cycle 5", got=f"{len(five['ticks'])} ticks, no retirement")
+        return
     sch2 = schedule(stream, prog, True)
     W2 = sch2["W"]
     for k, t_obs in enumerate(obs):
@@ -859,7 +863,7 @@ class Programs(Batch):
         cur = with_prog(p, cur)
         # 5. shrink cache configuration towards "off"
         cfg = dict(cur["cfg"])
-        for key in ("ic_on", "dc_on", "decoy"):
+        for key in ("ic_on", "dc_on", "decoy", "probe_before_load"):
             if budget.spent():
                 break
             if cfg.get(key) and key not in self.force:
